@@ -233,7 +233,9 @@ def oracle_c04(res, cases):
     return n
 
 
-TRIGGERS = ["eval('1')", "exec('pass')", 'locals()', 'globals()', 'vars()']
+TRIGGERS = ["eval('1')", "exec('pass')", 'locals()', 'globals()', 'vars()',
+            # every way of REFERRING to the name counts, whatever is done with it: called with arguments, starred, not called, parenthesised
+            'vars(print)', 'vars(*())', 'locals', '(eval)', 'globals ()', "[exec][0]('pass')", 'vars(**{})', "eval and 1"]
 
 
 def oracle_c09(res, r, tier):
@@ -491,6 +493,9 @@ def oracle_c11(res, r, tier):
             cases.append({'source': 'STEP = %s\nOTHER = %s\n' % (second, second), 'options': {}})
     # many foldable expressions in one module: long enough for concurrent calls to interleave inside the folding
     big = ['\n'.join('SIZE_%d_%d = %d * %d + %d - %d' % (k, i, 3 + i, 7 + k, i * k, k) for i in range(120)) + '\n' for k in range(4)]
+    # a source nested far deeper than the interpreter's default recursion limit allows, and one comfortably below it
+    big.append('deep = ' + ' + '.join('term_%d' % i for i in range(3000)) + '\n')
+    big.append('shallow = ' + ' + '.join('term_%d' % i for i in range(60)) + '\n')
     for b_ in big:
         cases.append({'source': b_, 'options': {}})
     n = 0
@@ -514,6 +519,9 @@ def oracle_c11(res, r, tier):
     # history: in this process, after unrelated and related calls, sharing argument objects between calls
     shared_l, shared_g = ['keep_me'], ['keep_too']
     ann = RemoveAnnotationsOptions()
+    def process_state():
+        return (sys.getrecursionlimit(), os.getcwd(), sys.getswitchinterval(), len(warnings.filters), tuple(sys.path), sorted(os.environ.items()), sys.flags.optimize)
+    state0 = process_state()
     defaults0 = repr((python_minifier.minify.__defaults__, python_minifier.minify.__kwdefaults__, [vars(x) for x in (python_minifier.minify.__defaults__ or ()) if hasattr(x, '__dict__')]))
     for i, c in enumerate(cases):
         o = dict(c['options'])
@@ -530,6 +538,11 @@ def oracle_c11(res, r, tier):
                               {'source': c['source'], 'options': c['options'], 'before': [pl0, pg0], 'after': [list(shared_l), list(shared_g)]})
             shared_l[:] = pl0
             shared_g[:] = pg0
+        state1 = process_state()
+        if state1 != state0:
+            changed = [k for k, a_, b_ in zip(('recursion limit', 'working directory', 'switch interval', 'warning filters', 'sys.path', 'environment', 'optimize flag'), state0, state1) if a_ != b_]
+            res.add_violation('c11-process-state-changed', 'a minify call left process-wide interpreter state changed: %s' % changed, {'source': c['source'][:400], 'options': c['options'], 'changed': changed})
+            state0 = state1
         if 'remove_annotations' not in c['options']:
             # the same call relying on the module-level default option object, against a call with a fresh one
             try:
